@@ -338,6 +338,8 @@ func c17Extremes(name string) [][]byte {
 			{0x40, 0xff, 0xff, 0xff, 0xff, 0xff, 0xff, 0xff, 0xff, 0xff}, {0x48, 0xff, 0xff, 0xff, 0xff, 0xff, 0xff, 0xff, 0xff, 0xff}, {0x40, 0xff, 0, 0, 0, 0, 0, 0, 0, 0x80},
 			{0x40, 0xfd, 0xff, 0x07}, {0x40, 0xfd, 0x00, 0x08}, {0x48, 0xfd, 0xff, 0x03}, {0x48, 0xfd, 0x00, 0x04},
 			rep([]byte{0x40, 0x01}, 2047, 0x00), rep([]byte{0x40, 0x01}, 2048, 0x00), rep([]byte{0x41, 0x01}, 5000, 0x00),
+			// Array [Array of 2045/2046 Any; Any]: 2048 items (the largest accepted) and 2049 (the budget itself runs out, not an announced count)
+			append(append([]byte{0x40, 0x02, 0x40, 0xfd, 0xfd, 0x07}, make([]byte, 2045)...), 0x00), append(append([]byte{0x40, 0x02, 0x40, 0xfd, 0xfe, 0x07}, make([]byte, 2046)...), 0x00),
 			append([]byte{0x40, 0xfd, 0xff, 0x07}, make([]byte, 2047)...), append([]byte{0x40, 0xfd, 0x00, 0x08}, make([]byte, 2048)...),
 			{0x28, 0xfe, 0xff, 0xff, 0x01, 0x00}, {0x28, 0xfe, 0xfe, 0xff, 0x01, 0x00}, {0x10, 0x01}, {0x60}, {0xff}}
 	case "cond", "rule":
